@@ -327,7 +327,8 @@ def collect(cfg, shard_outs):
                         agg["samples"].append(line.split("\t", 1)[1][:1500])
                 elif line.startswith("!FAIL\t"):
                     parts = line.split("\t")
-                    agg["fail"].append({"id": parts[1], "signature": unesc(parts[2]), "detail": unesc(parts[3]) if len(parts) > 3 else ""})
+                    agg["fail"].append({"id": parts[1], "signature": unesc(parts[2]), "detail": unesc(parts[3]) if len(parts) > 3 else "",
+                                        "shard_lines": lines})
                 elif line.startswith("!NOTE\t"):
                     pass
                 else:
@@ -364,6 +365,9 @@ def collect(cfg, shard_outs):
                         agg["bad"].append(rec)
             if seen != len(lines):
                 agg["infra"].append("driver answered %d of %d cases" % (seen, len(lines)))
+    for rec in agg["fail"]:
+        # attach the case line (the harness writes the case before or after its !FAIL line)
+        rec["case"] = rec.pop("shard_lines", {}).get(rec["id"], "")
     if not agg["samples"]:
         for so in shard_outs:
             if so["harness_rc"] == 0:
